@@ -357,7 +357,10 @@ int main(int argc, char** argv) {
         if (o.usedAlg != CMAES && c.alg != BestAvailable) {
             bool same = true; std::string how;
             for (int fill : {0xFF, 0x100}) { Outcome o5 = runOptimizer(p, c, 7, fill);
-                if (!(o5.returned && o5.f == o.f && o5.x == o.x && o5.log.nObj == o.log.nObj)) { same = false; how = std::string(fill == 0xFF ? "zero" : "NaN") + "-filled heap and stack: " + (o5.returned ? "f=" + verif::fmtd(o5.f) + " after " + std::to_string(o5.log.nObj) + " evaluations" : "threw " + o5.failure.substr(0, 80)); break; } }
+                // The property promises reproducibility only for seeded CMA-ES; a different number of evaluations with the same
+                // returned point and value is therefore only counted.  A different RESULT would make the other clauses depend on garbage.
+                if (o5.returned && o5.f == o.f && o5.x == o.x && o5.log.nObj != o.log.nObj) { run.count("unspecified:evaluation-count-depends-on-uninitialised-memory/" + A); continue; }
+                if (!(o5.returned && o5.f == o.f && o5.x == o.x)) { same = false; how = std::string(fill == 0xFF ? "zero" : "NaN") + "-filled heap and stack: " + (o5.returned ? "f=" + verif::fmtd(o5.f) + " after " + std::to_string(o5.log.nObj) + " evaluations" : "threw " + o5.failure.substr(0, 80)); break; } }
             run.expect(same, "uninitialised-memory/" + A, [&] { return "the result depends on the contents of uninitialised heap/stack memory: default fill gives f=" + verif::fmtd(o.f) + " after " + std::to_string(o.log.nObj) + " evaluations, " + how + " | " + where; }, RP);
         }
     };
